@@ -15,3 +15,4 @@ import XzVerif.Props.C03
 #print axioms Props.C03.C03_source_code_lt_range
 #print axioms Props.C03.C03_source_tree_decoders
 #print axioms Props.C03.C03_source_length_and_distance_decoders
+#print axioms Props.C03.C03_source_literal_decoder
